@@ -382,6 +382,29 @@ def _store_on_all_paths(cfg: CFG, target: Node, sid: set[int]) -> bool:
 
 
 # ------------------------------------------------------------------------------------------------ FRAME
+_LINE_TABLES = ("bsCount", "sCount", "tShift", "bMarks", "eMarks")
+
+
+def _is_line_table(f: Func, e: ast.AST) -> bool:
+    """e denotes one of the per-line tables: `<state>.bMarks`, or a local bound only to such an attribute (also as a component of
+    `bMarks, eMarks = self.bMarks, self.eMarks`)."""
+    if isinstance(e, ast.Attribute):
+        return e.attr in _LINE_TABLES
+    if isinstance(e, ast.Name):
+        vals: list[ast.AST | None] = []
+        for n in own_nodes(f.node):
+            if isinstance(n, ast.Assign):
+                for t in n.targets:
+                    if isinstance(t, ast.Name) and t.id == e.id:
+                        vals.append(n.value)
+                    elif isinstance(t, (ast.Tuple, ast.List)):
+                        for k, x in enumerate(t.elts):
+                            if isinstance(x, ast.Name) and x.id == e.id:
+                                vals.append(n.value.elts[k] if isinstance(n.value, (ast.Tuple, ast.List)) and len(n.value.elts) == len(t.elts) else None)
+        return bool(vals) and all(isinstance(v, ast.Attribute) and v.attr in _LINE_TABLES for v in vals)
+    return False
+
+
 def _tabstops(fn: ast.AST) -> list[ast.BinOp]:
     out = []
     for n in own_nodes(fn):
@@ -452,8 +475,7 @@ def rule_frame(c: Ctx) -> RuleResult:
                         break
                     # a loop over lines (it indexes the line tables by a variable it moves): a cell read before the loop belongs
                     # to one fixed line, whatever its index is called
-                    line_vars = {y.id for n_ in ast.walk(L) if isinstance(n_, ast.Subscript) and isinstance(n_.value, ast.Attribute)
-                                 and n_.value.attr in ("bsCount", "sCount", "tShift", "bMarks", "eMarks")
+                    line_vars = {y.id for n_ in ast.walk(L) if isinstance(n_, ast.Subscript) and _is_line_table(f, n_.value)
                                  for y in ast.walk(n_.slice) if isinstance(y, ast.Name)} & stored
                     if line_vars:
                         stale = (f"`{x.id} = {U(d.value)}` is read once before the loop at line {L.lineno}, which walks the lines "
